@@ -459,6 +459,8 @@ def seeded():
     res = []
     for mf in sorted(glob.glob(os.path.join(VERIF, 'seeded', '*', 'meta.json'))):
         meta = json.load(open(mf, encoding='utf-8'))
+        if meta.get('superseded'):
+            continue     # no longer a breaking change on the current tree (a fix made it harmless)
         res.append((meta['property'], 'seeded/' + meta['name'], os.path.join(os.path.dirname(mf), 'patch.diff')))
     return res
 
